@@ -39,6 +39,24 @@ def extra_cases(tier, seed, shard, nshards):
     for i, c in enumerate(cs):
         if (i + seed) % nshards == shard:
             yield c
+    # error-handling middleware: an accepted start_response(..., exc_info) before anything was sent replaces status and headers of the
+    # first call - the response is framed by what the second call declared (with or without a Content-Length of its own), on one or
+    # two requests of a connection
+    n = 0
+    for kind in wenv.KINDS:
+        for first_cl in (None, 5, 9):
+            for second_cl in (None, 9):
+                for mode in ("list", "write", "gen"):
+                    for version in ("1.1", "1.0"):
+                        n += 1
+                        if n % nshards != shard:
+                            continue
+                        prog = {"status": "200 OK", "headers": [["Content-Type", "text/plain"]] + ([["Content-Length", str(first_cl)]] if first_cl is not None else []),
+                                "mode": mode, "chunks": ["some", "thing"], "read_input": "none", "lazy_start": False, "closing": False,
+                                "restart": {"when": "before_write", "exc_info": True, "status": "500 Internal Server Error", "catch": False,
+                                            "headers": [["X-Replaced", "1"]] + ([["Content-Length", str(second_cl)]] if second_cl is not None else [])}}
+                        req = {"method": "GET", "target": "/", "version": version, "connection": "keep-alive" if version == "1.0" else None}
+                        yield {"kind": kind, "keepalive": 2, "sendfile": None, "requests": [req, dict(req, target="/2")], "progs": [prog], "cut": 0}
 
 
 EXHAUSTIVE_NOTE = ("engine R slice: for every worker class x sendfile on/off one real server answers the full grid offset {0,1,4096,69990,"
@@ -164,6 +182,9 @@ def run_case(case):
             break
         prog = progs[min(i, len(progs) - 1)]
         rec = app.calls[i]
+        rs = prog.get("restart")
+        if rs and rs.get("exc_info") and rs.get("when") == "before_write" and not rs.get("catch") and not rec["start_errors"] and rec["start_calls"] >= 2:
+            prog = dict(prog, status=rs["status"], headers=rs["headers"])        # the accepted second call replaces the first
         out, cl = gen_app.expected_output(prog)
         code = int(prog["status"].split()[0])
         method = rq["method"]
